@@ -426,6 +426,27 @@ func runC14(c *Ctx, r *Run) {
 			}
 		}
 	}
+	// every other function of the key-material packages (a mutation moved into a helper is still found)
+	{
+		have := map[*ssa.Function]bool{}
+		for _, f := range aliasFns {
+			have[f] = true
+		}
+		for _, p := range c.LibPkgs() {
+			rel := c.Rel(p.Types)
+			if !(strings.HasPrefix(rel, "protocols/") && (strings.Contains(rel, "keygen") || strings.Contains(rel, "config"))) && rel != "internal/bip32" {
+				continue
+			}
+			for _, fn := range funcsOfPkg(c, c.SSA[p.Types]) {
+				withAnon(fn, func(f *ssa.Function) {
+					if !have[f] {
+						have[f] = true
+						aliasFns = append(aliasFns, f)
+					}
+				})
+			}
+		}
+	}
 	checkAlias(c, r, "ALIAS-1", aliasFns)
 
 	// ---- SPEC-1
